@@ -767,7 +767,49 @@ def read_file_routing():
     return None
 
 
+def splitext_native(extra=()):
+    """the clauses proved on genericpath._splitext / posixpath.splitext (contracts/C07.py::splitext_stdlib), on the interpreter that
+    runs the library: A1 ext empty or starts with '.', A2 no further '.', A3 no '/', A4 root + ext == p, and the positive case A5
+    (stem ending in a name character + '.' + dot-free ext => that ext) that the alias lemmas take as hypothesis.  Every string over
+    {a . / ' '} up to length 6, the witness, and A5 over the router's own extensions."""
+    import itertools
+    import os
+    tried = 0
+
+    def bad(p):
+        root, e = os.path.splitext(p)
+        if not (e == "" or e.startswith(".")):
+            return "A1: extension is empty or starts with '.'"
+        if "." in e[1:]:
+            return "A2: no further '.' in the extension"
+        if "/" in e:
+            return "A3: no separator in the extension"
+        if root + e != p:
+            return "A4: root + extension == path"
+        return None
+    cands = [x for x in extra if isinstance(x, str)]
+    for n in range(0, 7):
+        cands.extend("".join(t) for t in itertools.product("a./ ", repeat=n))
+    for p in cands:
+        tried += 1
+        why = bad(p)
+        if why:
+            return {"reproduced": True, "target": "os.path.splitext", "inputs": {"p": p}, "expected": why, "observed": repr(os.path.splitext(p)), "tried": tried}
+    r = router()
+    for ext in list(r._EXTRACTOR_REGISTRY) + list(r._EXTENSION_ALIASES):
+        for stem in ("n", "d/e f", "x.y", ".h", "a/.b", "..c", "d.e/f"):
+            tried += 1
+            got = os.path.splitext(f"{stem}.{ext}")[1]
+            if got != "." + ext:
+                return {"reproduced": True, "target": "os.path.splitext", "inputs": {"p": f"{stem}.{ext}"}, "expected": f"A5: extension .{ext}",
+                        "observed": repr(got), "tried": tried}
+    return {"reproduced": False, "note": f"os.path.splitext of this interpreter satisfies A1-A5 on {tried} native cases"}
+
+
 def find(req):
+    if "genericpath.py" in ((req.get("obligation") or "") + (req.get("function") or "")) or \
+            "posixpath.py" in ((req.get("obligation") or "") + (req.get("function") or "")):
+        return splitext_native([(req.get("witness") or {}).get("p")])
     r = router()
     rf = read_file_dispatch() or read_file_routing()
     if rf is not None:
